@@ -8,6 +8,7 @@ import (
 	"strings"
 
 	"gopkg.in/yaml.v3"
+	"verif/harness/internal/run"
 )
 
 // ---- projection of `crd text parse` YAML
@@ -89,7 +90,13 @@ func projectTree(t yTree) []Rec {
 
 // parseRec runs `crd text parse` on text and projects the outcome
 func parseRec(c *Ctx, text string, claim []string, sub string) Rec {
-	r := c.crd([]string{"text", "parse"}, []byte(text))
+	// the text reaches the parser by one of the documented routes ([FILE] or stdin): the language is the same on all of them
+	var r run.Result
+	if via := viaFor(text); via != "" && len(text) > 0 {
+		r = c.crdVia([]string{"text", "parse"}, []byte(text), via)
+	} else {
+		r = c.crd([]string{"text", "parse"}, []byte(text))
+	}
 	rec := Rec{"kind": "text", "sub": sub, "s": chars(text), "accepted": false, "items": []Rec{}, "terminated": !r.TimedOut,
 		"stdoutLen": len(r.Stdout), "stderrLen": len(r.Stderr), "exit": r.Exit, "panic": r.Panic, "claim": claim, "hasClaim": claim != nil}
 	if claim == nil {
@@ -190,7 +197,7 @@ func loadSentences(path string) [][]string {
 	return out
 }
 
-const runeAlphabet = "CR/[]{}=,#b_1;\n mG2♭" // 20 representative runes
+const runeAlphabet = "CR/[]{}=,#b_1;\n mG2♭"       // 20 representative runes
 const ctlAlphabet = "C[1]D \x1a\x07\x00\x1b;\n{=}" // with control characters: not white space, so they are symbol text
 
 func init() {
@@ -198,7 +205,10 @@ func init() {
 		Rule: "sentence: every sentence TLC derived from the productions of chords.y (<= L tokens), rendered with seeded trivia/spellings; prefix: every proper prefix of a rendering of each sentence; " +
 			"mutation: seeded token deletions / duplications / swaps / replacements; strings: ALL strings over 20 representative runes up to length n (quick n=3, thorough n=4) plus seeded longer ones; " +
 			"each through the real `crd text parse` under a watchdog. distinct = distinct texts",
-		Key: func(r Rec) string { b, _ := json.Marshal([]any{r["s"], r["base"], r["reps"], r["suffix"]}); return string(b) },
+		Key: func(r Rec) string {
+			b, _ := json.Marshal([]any{r["s"], r["base"], r["reps"], r["suffix"]})
+			return string(b)
+		},
 		Gen: func(c *Ctx) []Case {
 			rng := rand.New(rand.NewSource(c.Seed))
 			sents := loadSentences(c.Aux)
